@@ -8,7 +8,6 @@ import (
 	"unicode"
 	"unicode/utf8"
 
-	"github.com/foxcpp/maddy/framework/dns"
 	"github.com/foxcpp/maddy/internal/verifshim/vh"
 	"golang.org/x/net/idna"
 	"golang.org/x/text/unicode/norm"
@@ -61,10 +60,10 @@ func c17Table(inputs ...string) string {
 			} else {
 				t.seen[hk] = true
 			}
-			n := norm.NFC.String(s)
-			l := strings.ToLower(s)
-			u, uerr := idna.ToUnicode(s)
-			a, aerr := idna.ToASCII(s)
+			n, l, u, uerr, a, aerr, pok := c17Prims(s)
+			if !pok {
+				continue // a library primitive panicked (reported): no rows, the model answers MISSING
+			}
 			t.rows = append(t.rows,
 				"n "+vh.HexRunes(s)+" "+vh.HexRunes(n),
 				"l "+vh.HexRunes(s)+" "+vh.HexRunes(l),
@@ -141,53 +140,85 @@ func c17Op(out *vh.Out, fn string, args ...string) {
 	if strings.HasPrefix(call, "C17 b ") {
 		out.Stat("op.bytes." + fn)
 	}
-	var obs string
-	needTab := true
-	switch fn {
-	case "split":
-		m, d, err := Split(args[0])
-		if err != nil {
-			obs = "err"
-		} else {
-			obs = "ok " + vh.HexRunes(m) + " " + vh.HexRunes(d)
-		}
-		needTab = false
-	case "unquote":
-		r, err := UnquoteMbox(args[0])
-		if err != nil {
-			obs = "err"
-		} else {
-			obs = "ok " + vh.HexRunes(r)
-		}
-		needTab = false
-	case "quote":
-		obs = vh.HexRunes(QuoteMbox(args[0]))
-		needTab = false
-	case "isascii":
-		obs = b01(IsASCII(args[0]))
-		needTab = false
-	case "toascii":
-		obs = res(ToASCII(args[0]))
-	case "tounicode":
-		obs = res(ToUnicode(args[0]))
-	case "forlookup":
-		obs = res(ForLookup(args[0]))
-	case "cleandomain":
-		obs = res(CleanDomain(args[0]))
-	case "dnsforlookup":
-		obs = res(dns.ForLookup(args[0]))
-	case "valid":
-		obs = b01(Valid(args[0]))
-	case "equal":
-		obs = b01(Equal(args[0], args[1]))
-	case "dnsequal":
-		obs = b01(dns.Equal(args[0], args[1]))
+	// a call that panics is observed as "panic" (no model function has that outcome: C17_no_panic), the
+	// wrapper has reported the violation C17/panic already
+	obs, needTab, known := c17Observe(fn, args)
+	if !known {
+		// a function without a model (crash-freedom only): c17Observe has called it under recover
+		out.Stat("op.crash-only." + fn)
+		return
 	}
 	if needTab {
 		call += c17Table(args...)
 	}
 	out.Corr(call, obs)
 	out.Stat("op." + fn)
+	if obs == "panic" {
+		out.Stat("op.panicked." + fn)
+	}
+}
+
+func c17Observe(fn string, args []string) (obs string, needTab, known bool) {
+	defer func() {
+		if p := recover(); p != nil {
+			if _, ok := p.(c17Abort); !ok {
+				panic(p)
+			}
+			obs = "panic"
+		}
+	}()
+	needTab, known = true, true
+	switch fn {
+	case "split":
+		needTab = false
+		m, d, err := c17xSplit(args[0])
+		if err != nil {
+			obs = "err"
+		} else {
+			obs = "ok " + vh.HexRunes(m) + " " + vh.HexRunes(d)
+		}
+	case "unquote":
+		needTab = false
+		r, err := c17xUnquoteMbox(args[0])
+		if err != nil {
+			obs = "err"
+		} else {
+			obs = "ok " + vh.HexRunes(r)
+		}
+	case "quote":
+		needTab = false
+		obs = vh.HexRunes(c17xQuoteMbox(args[0]))
+	case "isascii":
+		needTab = false
+		obs = b01(c17xIsASCII(args[0]))
+	case "validmbox":
+		needTab = false
+		obs = b01(c17xValidMailboxName(args[0]))
+	case "toascii":
+		obs = res(c17xToASCII(args[0]))
+	case "tounicode":
+		obs = res(c17xToUnicode(args[0]))
+	case "forlookup":
+		obs = res(c17xForLookup(args[0]))
+	case "cleandomain":
+		obs = res(c17xCleanDomain(args[0]))
+	case "dnsforlookup":
+		obs = res(c17xDNSForLookup(args[0]))
+	case "dnstounicode":
+		obs = res(c17xDNSToUnicode(args[0]))
+	case "valid":
+		obs = b01(c17xValid(args[0]))
+	case "validdomain":
+		obs = b01(c17xValidDomain(args[0]))
+	case "equal":
+		obs = b01(c17xEqual(args[0], args[1]))
+	case "dnsequal":
+		obs = b01(c17xDNSEqual(args[0], args[1]))
+	default:
+		known = false
+		c17CrashOnly(fn, args)
+	}
+	return
 }
 
 // ---- generators ----
@@ -637,25 +668,26 @@ func c17SplitAt(a string) (string, string) {
 // key is a fixed point is checked for the generated addresses in c17Monitor: for arbitrary accepted
 // strings such as "u@xn--" -- an empty A-label, key "u" -- the key need not be an address.)
 func c17CheckValid(out *vh.Out, x string) {
-	if !utf8.ValidString(x) || !Valid(x) {
+	defer c17Recover()
+	if !utf8.ValidString(x) || !c17xValid(x) {
 		out.Stat("validkey.not-valid")
 		return
 	}
 	out.Stat("validkey.checked")
 	op := "C17 validkey " + vh.HexRunes(x)
-	k, err := ForLookup(x)
+	k, err := c17xForLookup(x)
 	if err != nil {
 		out.Violation("C17/valid-address-no-key", op, fmt.Sprintf("Valid(%q) but ForLookup: %v", x, err))
 		return
 	}
-	if _, err := CleanDomain(x); err != nil {
+	if _, err := c17xCleanDomain(x); err != nil {
 		out.Violation("C17/valid-address-cleandomain-fails", op, fmt.Sprintf("Valid(%q) but CleanDomain: %v", x, err))
 	}
 	if _, d := c17SplitAt(x); d != "" {
-		if _, err := dns.ForLookup(d); err != nil {
+		if _, err := c17xDNSForLookup(d); err != nil {
 			out.Violation("C17/valid-address-no-dns-key", op, fmt.Sprintf("Valid(%q) but dns.ForLookup(%q): %v", x, d, err))
 		}
-		if _, err := dns.ToUnicode(d); err != nil {
+		if _, err := c17xDNSToUnicode(d); err != nil {
 			out.Violation("C17/valid-address-no-dns-key", op, fmt.Sprintf("Valid(%q) but dns.ToUnicode(%q): %v", x, d, err))
 		}
 	}
@@ -667,7 +699,8 @@ func c17TrimDot(s string) string { return strings.TrimSuffix(s, ".") }
 // c17CheckSplit: whatever Split accepts re-joins to the string it was given (no code point is dropped,
 // added or moved), for any string
 func c17CheckSplit(out *vh.Out, s string) {
-	m, d, err := Split(s)
+	defer c17Recover()
+	m, d, err := c17xSplit(s)
 	if err != nil {
 		out.Stat("splitjoin.err")
 		return
@@ -687,6 +720,7 @@ func c17CheckSplit(out *vh.Out, s string) {
 // written): they must not share a lookup key, compare Equal or get the same cleaned form.
 // The premise is re-evaluated here, so the op is replayable with any pair.
 func c17CheckDistinct(out *vh.Out, a, b string) {
+	defer c17Recover()
 	ma, da := c17SplitAt(a)
 	mb, db := c17SplitAt(b)
 	if !utf8.ValidString(a) || !utf8.ValidString(b) || ma == "" || mb == "" || da == "" || db == "" || c17HasACE(da) || c17HasACE(db) {
@@ -701,26 +735,26 @@ func c17CheckDistinct(out *vh.Out, a, b string) {
 	}
 	out.Stat("distinct.checked")
 	op := "C17 distinct " + vh.HexRunes(a) + " " + vh.HexRunes(b)
-	ka, ea := ForLookup(a)
-	kb, eb := ForLookup(b)
+	ka, ea := c17xForLookup(a)
+	kb, eb := c17xForLookup(b)
 	if ea == nil && eb == nil && ka == kb {
 		out.Violation("C17/distinct-addresses-same-key", op, fmt.Sprintf("ForLookup(%q) = ForLookup(%q) = %q", a, b, ka))
 	}
-	if Equal(a, b) || Equal(b, a) {
+	if c17xEqual(a, b) || c17xEqual(b, a) {
 		out.Violation("C17/distinct-addresses-equal", op, fmt.Sprintf("Equal(%q,%q)=true", a, b))
 	}
 	if fda != fdb {
-		xa, e1 := dns.ForLookup(da)
-		xb, e2 := dns.ForLookup(db)
+		xa, e1 := c17xDNSForLookup(da)
+		xb, e2 := c17xDNSForLookup(db)
 		if e1 == nil && e2 == nil && xa == xb {
 			out.Violation("C17/distinct-domains-same-dns-key", op, fmt.Sprintf("dns.ForLookup(%q) = dns.ForLookup(%q) = %q", da, db, xa))
 		}
-		if dns.Equal(da, db) {
+		if c17xDNSEqual(da, db) {
 			out.Violation("C17/distinct-domains-dns-equal", op, fmt.Sprintf("dns.Equal(%q,%q)=true", da, db))
 		}
 	}
-	ca, e3 := CleanDomain(a)
-	cb, e4 := CleanDomain(b)
+	ca, e3 := c17xCleanDomain(a)
+	cb, e4 := c17xCleanDomain(b)
 	if e3 == nil && e4 == nil && ca == cb && (ma != mb || fda != fdb) {
 		out.Violation("C17/distinct-addresses-same-cleandomain", op, fmt.Sprintf("CleanDomain(%q) = CleanDomain(%q) = %q", a, b, ca))
 	}
@@ -819,15 +853,16 @@ func c17Neighbour(r *vh.Rng, a c17Addr) string {
 
 // c17CheckPair: canon and v are spellings of one address (by construction of the generator)
 func c17CheckPair(out *vh.Out, canon, v string) {
+	defer c17Recover()
 	vop := "C17 variants " + vh.HexRunes(canon) + " " + vh.HexRunes(v)
-	k1, err1 := ForLookup(canon)
-	kv, errv := ForLookup(v)
+	k1, err1 := c17xForLookup(canon)
+	kv, errv := c17xForLookup(v)
 	// the signature names the upper-case ACE prefix only when it is the cause: the same spelling with
 	// the prefix in lower case gets the right key
 	ace := ""
 	if c17UpperACE(v) {
 		mv, dv := c17SplitAt(v)
-		if kl, _ := ForLookup(mv + "@" + aceCandidate(dv)); kl == k1 {
+		if kl, _ := c17xForLookup(mv + "@" + aceCandidate(dv)); kl == k1 {
 			ace = "uppercase-ace-prefix-"
 		}
 	}
@@ -838,7 +873,7 @@ func c17CheckPair(out *vh.Out, canon, v string) {
 		}
 		out.Violation(sig, vop, fmt.Sprintf("ForLookup(%q)=%q,%v but ForLookup(%q)=%q,%v", canon, k1, err1, v, kv, errv))
 	}
-	if !Equal(canon, v) || !Equal(v, canon) {
+	if !c17xEqual(canon, v) || !c17xEqual(v, canon) {
 		sig := "C17/variant-not-equal"
 		if ace != "" {
 			sig = "C17/uppercase-ace-prefix-not-equal"
@@ -849,18 +884,18 @@ func c17CheckPair(out *vh.Out, canon, v string) {
 	mc, dc := c17SplitAt(canon)
 	mv, dv := c17SplitAt(v)
 	if dc != "" && dv != "" {
-		kc, e1 := dns.ForLookup(dc)
-		kd, e2 := dns.ForLookup(dv)
+		kc, e1 := c17xDNSForLookup(dc)
+		kd, e2 := c17xDNSForLookup(dv)
 		if kc != kd || (e1 == nil) != (e2 == nil) {
 			out.Violation("C17/variant-different-dns-key", vop, fmt.Sprintf("dns.ForLookup(%q)=%q,%v but dns.ForLookup(%q)=%q,%v", dc, kc, e1, dv, kd, e2))
 		}
-		if !dns.Equal(dc, dv) || !dns.Equal(dv, dc) {
+		if !c17xDNSEqual(dc, dv) || !c17xDNSEqual(dv, dc) {
 			out.Violation("C17/variant-dns-not-equal", vop, fmt.Sprintf("dns.Equal(%q,%q)=false", dc, dv))
 		}
 		// CleanDomain keeps the local part as written and gives every spelling of the domain one form
 		// (up to the trailing dot, which CleanDomain keeps)
-		cc, e3 := CleanDomain(canon)
-		cv, e4 := CleanDomain(v)
+		cc, e3 := c17xCleanDomain(canon)
+		cv, e4 := c17xCleanDomain(v)
 		if e3 == nil {
 			_, cdc := c17SplitAt(cc)
 			mcv, cdv := c17SplitAt(cv)
@@ -877,35 +912,36 @@ func c17CheckPair(out *vh.Out, canon, v string) {
 }
 
 func c17Monitor(out *vh.Out, r *vh.Rng, a c17Addr) {
+	defer c17Recover()
 	canon := a.mbox + "@" + a.domain
 	op := "C17 laws " + vh.HexRunes(canon)
 	c17CheckValid(out, canon)
-	if !Valid(canon) {
+	if !c17xValid(canon) {
 		out.Note("generated address not accepted by address.Valid: " + canon)
 	}
 	// idempotence
-	k1, err := ForLookup(canon)
+	k1, err := c17xForLookup(canon)
 	if err != nil {
 		out.Violation("C17/valid-address-no-key", op, fmt.Sprintf("generated valid address %q: ForLookup: %v", canon, err))
 		return
 	}
-	k2, err2 := ForLookup(k1)
+	k2, err2 := c17xForLookup(k1)
 	if k1 != k2 || err2 != nil {
 		out.Violation("C17/forlookup-not-idempotent", op, fmt.Sprintf("%q -> %q -> %q %v", canon, k1, k2, err2))
 	}
-	c1, err := CleanDomain(canon)
+	c1, err := c17xCleanDomain(canon)
 	if err != nil {
 		out.Violation("C17/valid-address-cleandomain-fails", op, fmt.Sprintf("generated valid address %q: CleanDomain: %v", canon, err))
 	} else {
-		c2, _ := CleanDomain(c1)
+		c2, _ := c17xCleanDomain(c1)
 		if c1 != c2 {
 			out.Violation("C17/cleandomain-not-idempotent", op, fmt.Sprintf("%q -> %q -> %q", canon, c1, c2))
 		}
 	}
-	dk1, err := dns.ForLookup(a.domain)
+	dk1, err := c17xDNSForLookup(a.domain)
 	if err != nil {
 		out.Violation("C17/valid-address-no-dns-key", op, fmt.Sprintf("generated valid domain %q: dns.ForLookup: %v", a.domain, err))
-	} else if dk2, _ := dns.ForLookup(dk1); dk1 != dk2 {
+	} else if dk2, _ := c17xDNSForLookup(dk1); dk1 != dk2 {
 		out.Violation("C17/dns-forlookup-not-idempotent", op, fmt.Sprintf("%q -> %q -> %q", a.domain, dk1, dk2))
 	}
 	// variants
@@ -915,11 +951,11 @@ func c17Monitor(out *vh.Out, r *vh.Rng, a c17Addr) {
 		c17CheckValid(out, v)
 	}
 	// variants are pairwise equal too (transitivity on concrete triples)
-	if len(vs) >= 3 && !Equal(vs[1], vs[2]) {
+	if len(vs) >= 3 && !c17xEqual(vs[1], vs[2]) {
 		out.Violation("C17/variant-not-equal", "C17 variants "+vh.HexRunes(vs[1])+" "+vh.HexRunes(vs[2]), fmt.Sprintf("Equal(%q,%q)=false, both spellings of %q", vs[1], vs[2], canon))
 	}
 	// split / join
-	m, d, err := Split(canon)
+	m, d, err := c17xSplit(canon)
 	if err != nil || m+"@"+d != canon || m != a.mbox {
 		out.Violation("C17/split-join", op, fmt.Sprintf("Split(%q) = %q %q %v", canon, m, d, err))
 	}
@@ -935,22 +971,22 @@ func c17Monitor(out *vh.Out, r *vh.Rng, a c17Addr) {
 	c17CheckValid(out, nb)
 	// ASCII <-> Unicode: the generated address is in U-label form, so ToUnicode leaves it alone; with an
 	// ASCII local part ToASCII succeeds and the two conversions are inverse to one another
-	if us, err := ToUnicode(canon); err != nil || us != canon {
+	if us, err := c17xToUnicode(canon); err != nil || us != canon {
 		out.Violation("C17/tounicode-changes-u-form", op, fmt.Sprintf("ToUnicode(%q)=%q %v", canon, us, err))
 	}
-	if IsASCII(a.mbox) {
-		as, err := ToASCII(canon)
+	if c17xIsASCII(a.mbox) {
+		as, err := c17xToASCII(canon)
 		if err != nil {
 			out.Violation("C17/valid-address-toascii-fails", op, fmt.Sprintf("ToASCII(%q): %v", canon, err))
 		} else {
-			us, err2 := ToUnicode(as)
+			us, err2 := c17xToUnicode(as)
 			if err2 != nil || us != canon {
 				out.Violation("C17/idna-roundtrip", op, fmt.Sprintf("ToUnicode(ToASCII(%q)=%q)=%q %v", canon, as, us, err2))
 			}
-			if !IsASCII(as) {
+			if !c17xIsASCII(as) {
 				out.Violation("C17/toascii-not-ascii", op, fmt.Sprintf("ToASCII(%q)=%q", canon, as))
 			}
-			if as2, err3 := ToASCII(us); err2 == nil && (err3 != nil || as2 != as) {
+			if as2, err3 := c17xToASCII(us); err2 == nil && (err3 != nil || as2 != as) {
 				out.Violation("C17/idna-roundtrip", op, fmt.Sprintf("ToASCII(ToUnicode(%q)=%q)=%q %v", as, us, as2, err3))
 			}
 		}
@@ -960,6 +996,7 @@ func c17Monitor(out *vh.Out, r *vh.Rng, a c17Addr) {
 // a quoted string (by the harness' own reading) unquotes to what it spells, and the raw local part
 // survives QuoteMbox / UnquoteMbox
 func c17CheckSpelling(out *vh.Out, s string) {
+	defer c17Recover()
 	if !utf8.ValidString(s) {
 		return
 	}
@@ -968,44 +1005,45 @@ func c17CheckSpelling(out *vh.Out, s string) {
 		return
 	}
 	out.Stat("ownunquote.checked")
-	if u, err := UnquoteMbox(s); err != nil || u != raw {
+	if u, err := c17xUnquoteMbox(s); err != nil || u != raw {
 		out.Violation("C17/unquote-spelling", "C17 unquote "+vh.HexRunes(s), fmt.Sprintf("UnquoteMbox(%q)=%q,%v, spelled %q", s, u, err, raw))
 	}
-	q := QuoteMbox(raw)
-	if u, err := UnquoteMbox(q); err != nil || u != raw {
+	q := c17xQuoteMbox(raw)
+	if u, err := c17xUnquoteMbox(q); err != nil || u != raw {
 		out.Violation("C17/unquote-quote", "C17 quote "+vh.HexRunes(raw), fmt.Sprintf("Unquote(Quote(%q)=%q)=%q %v", raw, q, u, err))
 	}
 }
 
 func c17Strings(out *vh.Out, s, t string) {
+	defer c17Recover()
 	// Equal <=> same key; symmetry
-	ks, es := ForLookup(s)
-	kt, et := ForLookup(t)
+	ks, es := c17xForLookup(s)
+	kt, et := c17xForLookup(t)
 	op := c17Call("equal", s, t)
-	if Equal(s, t) != (ks == kt) {
+	if c17xEqual(s, t) != (ks == kt) {
 		// the signature says on which branch of ForLookup the two disagree: both keys computed, a domain that
 		// cannot be normalised (the key is the lower-cased whole string), an address that does not split
 		sig := "C17/equal-vs-key"
 		if es != nil || et != nil {
 			sig = "C17/equal-vs-key-undecodable-domain"
-			_, _, e1 := Split(s)
-			_, _, e2 := Split(t)
+			_, _, e1 := c17xSplit(s)
+			_, _, e2 := c17xSplit(t)
 			if (es != nil && e1 != nil) || (et != nil && e2 != nil) {
 				sig = "C17/equal-vs-key-malformed"
 			}
 		}
-		out.Violation(sig, op, fmt.Sprintf("Equal=%v keys %q,%v %q,%v", Equal(s, t), ks, es, kt, et))
+		out.Violation(sig, op, fmt.Sprintf("Equal=%v keys %q,%v %q,%v", c17xEqual(s, t), ks, es, kt, et))
 	}
-	if Equal(s, t) != Equal(t, s) {
+	if c17xEqual(s, t) != c17xEqual(t, s) {
 		out.Violation("C17/equal-not-symmetric", op, "")
 	}
-	ds, _ := dns.ForLookup(s)
-	dt, _ := dns.ForLookup(t)
+	ds, _ := c17xDNSForLookup(s)
+	dt, _ := c17xDNSForLookup(t)
 	dop := c17Call("dnsequal", s, t)
-	if dns.Equal(s, t) != (ds == dt) {
-		out.Violation("C17/dns-equal-vs-key", dop, fmt.Sprintf("dns.Equal=%v keys %q %q", dns.Equal(s, t), ds, dt))
+	if c17xDNSEqual(s, t) != (ds == dt) {
+		out.Violation("C17/dns-equal-vs-key", dop, fmt.Sprintf("dns.Equal=%v keys %q %q", c17xDNSEqual(s, t), ds, dt))
 	}
-	if dns.Equal(s, t) != dns.Equal(t, s) {
+	if c17xDNSEqual(s, t) != c17xDNSEqual(t, s) {
 		out.Violation("C17/dns-equal-not-symmetric", dop, "")
 	}
 	c17CheckValid(out, s)
@@ -1028,12 +1066,12 @@ func c17Strings(out *vh.Out, s, t string) {
 	} else {
 		out.Stat("isascii.illformed")
 	}
-	if IsASCII(s) != all {
-		out.Violation("C17/isascii", c17Call("isascii", s), fmt.Sprintf("IsASCII(%q)=%v", s, IsASCII(s)))
+	if c17xIsASCII(s) != all {
+		out.Violation("C17/isascii", c17Call("isascii", s), fmt.Sprintf("IsASCII(%q)=%v", s, c17xIsASCII(s)))
 	}
 	// ToASCII: whatever it returns without an error is ASCII (a non-ASCII local part -- ill-formed bytes
 	// included -- is refused, the domain comes back in A-labels)
-	if as, err := ToASCII(s); err == nil {
+	if as, err := c17xToASCII(s); err == nil {
 		out.Stat("toascii.ok")
 		for i := 0; i < len(as); i++ {
 			if as[i] >= 0x80 {
@@ -1046,7 +1084,7 @@ func c17Strings(out *vh.Out, s, t string) {
 	}
 	// ToUnicode keeps the local part (bytes as written) and never turns an ASCII-only address into a non-ASCII
 	// one without an A-label in it
-	if us, err := ToUnicode(s); err == nil {
+	if us, err := c17xToUnicode(s); err == nil {
 		m, d := c17SplitAt(s)
 		if d != "" && !strings.HasPrefix(us, m+"@") {
 			out.Violation("C17/tounicode-changes-local-part", c17Call("tounicode", s), fmt.Sprintf("ToUnicode(%q)=%q", s, us))
@@ -1056,9 +1094,9 @@ func c17Strings(out *vh.Out, s, t string) {
 	// (also for raw local parts that themselves look like a quoted string: the quoted form of s, s in
 	// bare quotes -- QuoteMbox takes the raw local part, whatever it looks like)
 	if s != "" && utf8.ValidString(s) {
-		for _, raw := range []string{s, QuoteMbox(s), "\"" + s + "\"", "\"" + strings.ReplaceAll(s, "\"", "") + "\""} {
-			q := QuoteMbox(raw)
-			u, err := UnquoteMbox(q)
+		for _, raw := range []string{s, c17xQuoteMbox(s), "\"" + s + "\"", "\"" + strings.ReplaceAll(s, "\"", "") + "\""} {
+			q := c17xQuoteMbox(raw)
+			u, err := c17xUnquoteMbox(q)
 			if err != nil || u != raw {
 				out.Violation("C17/unquote-quote", "C17 quote "+vh.HexRunes(raw), fmt.Sprintf("Unquote(Quote(%q)=%q)=%q %v", raw, q, u, err))
 			}
@@ -1215,12 +1253,13 @@ func c17ErrTag(err error) string {
 // error-branch reading of the property: when the domain cannot be normalised the key is one total function of
 // the whole string on both sides, so Equal is decided by the keys there too
 func c17KeyPairCase(out *vh.Out, r *vh.Rng) {
+	defer c17Recover()
 	a, b := c17KeyPair(out, r)
-	_, ea := ForLookup(a)
-	_, eb := ForLookup(b)
+	_, ea := c17xForLookup(a)
+	_, eb := c17xForLookup(b)
 	out.Stat("keypair.keys." + c17ErrTag(ea) + "-" + c17ErrTag(eb))
 	if a != b {
-		out.Stat(fmt.Sprintf("keypair.equal.%v", Equal(a, b)))
+		out.Stat(fmt.Sprintf("keypair.equal.%v", c17xEqual(a, b)))
 	}
 	c17Strings(out, a, b)
 	c17Strings(out, b, a)
@@ -1336,6 +1375,7 @@ var c17ByteFns = []string{"isascii", "isascii", "toascii", "toascii", "tounicode
 // c17ByteCase: one byte string through the byte-level oracles of c17Strings (IsASCII <=> every byte < 0x80,
 // ToASCII's result is ASCII, Equal <=> same key ...) and through the models (ops carry hex bytes)
 func c17ByteCase(out *vh.Out, r *vh.Rng) {
+	defer c17Recover()
 	var s string
 	if r.Bool() {
 		s = c17ByteString(r)
@@ -1371,30 +1411,6 @@ func c17ByteCase(out *vh.Out, r *vh.Rng) {
 	c17NoCrash(out, s, t)
 }
 
-func c17NoCrash(out *vh.Out, s, t string) {
-	defer func() {
-		if p := recover(); p != nil {
-			out.Violation("C17/panic", "C17 crash "+vh.HexBytes([]byte(s))+" "+vh.HexBytes([]byte(t)), fmt.Sprint(p))
-		}
-	}()
-	ForLookup(s)
-	CleanDomain(s)
-	Equal(s, t)
-	IsASCII(s)
-	ToASCII(s)
-	ToUnicode(s)
-	Split(s)
-	QuoteMbox(s)
-	UnquoteMbox(s)
-	Valid(s)
-	ValidMailboxName(s)
-	ValidDomain(s)
-	PRECISFold(s)
-	dns.ForLookup(s)
-	dns.Equal(s, t)
-	out.Stat("nocrash")
-}
-
 func c17Replay(out *vh.Out, op string) {
 	toks := strings.Fields(op)
 	if i := strings.Index(op, " | "); i >= 0 {
@@ -1415,6 +1431,10 @@ func c17Replay(out *vh.Out, op string) {
 		c17CheckDistinct(out, vh.UnhexRunes(toks[2]), vh.UnhexRunes(toks[3]))
 	case "crash":
 		c17NoCrash(out, string(vh.UnhexBytes(toks[2])), string(vh.UnhexBytes(toks[3])))
+	case "prim":
+		c17Table(vh.UnhexRunes(toks[3]))
+	case "long":
+		c17LongReplay(out, toks[2:])
 	case "b":
 		args := []string{}
 		for _, t := range toks[3:] {
@@ -1445,6 +1465,7 @@ func c17Replay(out *vh.Out, op string) {
 func TestVerifC17(t *testing.T) {
 	out := vh.Open("c17")
 	defer out.Close()
+	c17Out = out
 	if ops := vh.Replay(); ops != nil {
 		for _, op := range ops {
 			if strings.HasPrefix(op, "C17 ") {
@@ -1455,6 +1476,7 @@ func TestVerifC17(t *testing.T) {
 	}
 	r := vh.NewRng(vh.Seed() + 17)
 	r8 := vh.NewRng(vh.Seed() + 1708)
+	r9 := vh.NewRng(vh.Seed() + 1709)
 	n := vh.N(3000)
 	fns1 := []string{"split", "unquote", "quote", "isascii", "toascii", "tounicode", "forlookup", "cleandomain", "dnsforlookup", "valid"}
 	for i := 0; i < n; i++ {
@@ -1509,5 +1531,22 @@ func TestVerifC17(t *testing.T) {
 		}
 		// the uniformly random bytes too
 		c17Strings(out, string(bs), string(bs))
+		// round 9: over-long labels / names / local parts (with and without ACE prefix, every letter case) and other
+		// size extremes through every function, each call under recover (own forked generator)
+		if i%12 == 7 {
+			c17LongCase(out, r9, i/12)
+		}
+		// the three functions that got a correspondence op in round 9, on the strings of this iteration
+		if i%6 == 1 {
+			m, d := c17SplitAt(s)
+			switch r9.Intn(3) {
+			case 0:
+				c17Op(out, "validmbox", r9.Pick(m, m, s, t))
+			case 1:
+				c17Op(out, "validdomain", r9.Pick(d, d, s, t))
+			default:
+				c17Op(out, "dnstounicode", r9.Pick(d, d, s, t))
+			}
+		}
 	}
 }
